@@ -125,6 +125,19 @@ pub fn with_clock<R>(script: &ClockScript, explain: bool, f: impl FnOnce() -> R)
     (r, log)
 }
 
+/// Run `f` under its own frozen instant while an outer `with_clock` is in
+/// progress (a nested evaluation started from a rule callback): the outer
+/// script, its read counter and its log are put aside and restored afterwards.
+pub fn with_nested_frozen<R>(t: i128, f: impl FnOnce() -> R) -> (R, u32) {
+    let saved = ACTIVE.with(|a| a.borrow_mut().take());
+    let explain = saved.as_ref().map(|s| s.sites.is_some()).unwrap_or(false);
+    ACTIVE.with(|a| *a.borrow_mut() = Some(Active { script: ClockScript::Frozen { t }, reads: 0, values: Vec::new(), sites: if explain { Some(Vec::new()) } else { None } }));
+    let r = f();
+    let reads = ACTIVE.with(|a| a.borrow().as_ref().map(|x| x.reads).unwrap_or(0));
+    ACTIVE.with(|a| *a.borrow_mut() = saved);
+    (r, reads)
+}
+
 /// Take whatever reads accumulated (used after a caught unwind, where
 /// `with_clock` did not get to return its log).
 pub fn drain_after_unwind() -> ClockLog {
